@@ -135,6 +135,7 @@ def main(argv):
         names = [u['name'] for u in r['units'] if (not unit_filter or u['name'] in unit_filter) and u['name'] not in excl]
         # obligations: measured from the AIR log, per function belonging to the selected units
         failed_units = set()
+        model_domain_hits = []
         for e in r['errors']:
             if e.get('unit') not in names and e.get('unit') is not None:
                 continue
@@ -142,11 +143,21 @@ def main(argv):
                 continue
             k = match_known(known, pid, e['name'])
             rec = {'group': r['group'], 'obligation': e['name'], 'kind': e['kind'], 'origin': e.get('origin'), 'message': e['message'], 'rendered': e['rendered'], 'unit': e.get('unit')}
+            if e['kind'] == 'requires-at-call' and 'model_domain(' in (e.get('rendered') or ''):
+                # the code calls a MODEL method with arguments the model does not describe: the unit cannot be decided
+                # (same status as an unsupported construct), not a property verdict
+                model_domain_hits.append({'group': r['group'], 'unit': e.get('unit'), 'reason': 'call outside the modelled domain of an assumed contract: ' + e['name'][:200]})
+                continue
             if k:
                 known_seen.append((k, rec))
             else:
                 violations.append(rec)
             failed_units.add(e.get('unit'))
+        if model_domain_hits:
+            # everything else this unit reports rests on an unconstrained model call: drop its other errors, mark undecided
+            bad_units = {h['unit'] for h in model_domain_hits}
+            violations[:] = [v for v in violations if not (v.get('group') == r['group'] and v.get('unit') in bad_units)]
+            undecided.extend(model_domain_hits)
         air = r.get('air_asserts', {})
         for u in r['units']:
             if u['name'] not in names:
